@@ -87,6 +87,12 @@ def load_known(prop):
             elif line.startswith("fixed:"):
                 if ("property=" + prop) in line:
                     fixed.append(line)
+    # development aid only (never set by registered commands): VERIF_KNOWN_EXTRA="C06:id,C06:id2"
+    for tok in (os.environ.get("VERIF_KNOWN_EXTRA") or "").split(","):
+        if ":" in tok:
+            pid, kid = tok.split(":", 1)
+            if pid.strip() == prop:
+                active.setdefault(kid.strip(), "(development: VERIF_KNOWN_EXTRA)")
     return active, fixed
 
 
